@@ -1132,6 +1132,42 @@ func c09Gen(r *Rng, n int, tier string) []Case {
 			cases = append(cases, mkCase("raw-random", "KRaw", s))
 		}
 	}
+	// over-escaped renderings ("\\x makes any character literal"): every rune other than n t r may carry a backslash
+	// of its own; brace-free, claimed KRaw (compared with the model; judged against the frozen escape table by
+	// Corr/C09Case.v mm_search when the driver searches after a broken obligation). Own random stream, appended
+	// last: the cases above do not shift.
+	r2 := r.Fork()
+	for k := 0; k < 20+n/10; k++ {
+		m := 1 + r2.Intn(10)
+		var o []rune
+		for i := 0; i < m; i++ {
+			var c rune
+			if r2.Intn(3) == 0 {
+				c = genAnyRune(r2)
+			} else {
+				c = rune(Pick(r2, []byte("abefvx0179 AZ_\"-.,%")))
+			}
+			switch c {
+			case '\\', '{', '}':
+				o = append(o, '\\', c)
+			case '\n':
+				o = append(o, '\\', 'n')
+			case '\r':
+				o = append(o, '\\', 'r')
+			case '\t':
+				o = append(o, '\\', 't')
+			case 'n', 'r', 't':
+				o = append(o, c)
+			default:
+				if r2.Intn(2) == 0 {
+					o = append(o, '\\')
+				}
+				o = append(o, c)
+			}
+		}
+		o = []rune(string(o))
+		cases = append(cases, mkCase("over-esc", "KRaw", o))
+	}
 	return cases
 }
 
@@ -1142,7 +1178,7 @@ func main() {
 		Rule: "1 table case (unicode.IsSpace on every rune < 0x3100 + sample of the other planes vs Model/IsSpace.v); exhaustive small scope (every string of length <= 3 (quick) / 4 (thorough) over { } \" \\ space a 1); " +
 			"16 fixed templates; then seeded random: 37% concrete syntax trees of depth <= 4 (calls of probes f0..f3/g2, group and key look-ups incl. Atoi edge spellings, literals over a pool with NUL, non-ASCII and astral runes) printed with a random admissible layout (Unicode white-space runs, quoted/bare items, empty quoted argument) claimed to evaluate as the tree dictates; " +
 			"8% trees of call depth 2..4 whose literal arguments are over space, backslash, braces, double quote, TAB/LF/CR, the letters n t r and non-ASCII runes at every depth, printed with layered escapes (2^(2d+1)-1 backslashes before a special rune at call depth d; arguments quoted or bare) and claimed to evaluate as the tree dictates (C09_print_parse_escaped); " +
-			"10% escaped renderings of random strings over the full rune range (round trip); 20% error shapes (empty statement, unterminated statement, unknown function, empty statement inside an argument: re-based offset) around printed trees with the exact error list claimed; 13% mutations (delete/insert/swap/replace a brace, quote, backslash or space) of printed trees; 7% random strings over a syntax-heavy alphabet. " +
+			"10% escaped renderings of random strings over the full rune range (round trip); plus 20 + n/10 brace-free OVER-escaped renderings (any rune other than n t r may carry its own backslash; letters v f e a b x, digits and punctuation among them), compared with the model; 20% error shapes (empty statement, unterminated statement, unknown function, empty statement inside an argument: re-based offset) around printed trees with the exact error list claimed; 13% mutations (delete/insert/swap/replace a brace, quote, backslash or space) of printed trees; 7% random strings over a syntax-heavy alphabet. " +
 			"13% of the random draws are SEQUENCES: 2..6 templates compiled one after another on the same KeyBuilder (the same template twice; different templates sharing a malformed or well-formed argument text, claimed with the exact re-based error list of C09_err_rebase; malformed between well-formed; quoted arguments with an escaped brace; Func() re-registrations in between), each compile compared with the model of that template alone and evaluated both at once and after the whole sequence; half of the sequences run over 2..3 builders made with Funcs(base) from ONE base map (created before or after the registrations): registrations of h0/h1/twice on one builder, calls of them on every builder (exact unknown-function error claimed where the builder did not register it; model under the extended table where it did), HasFunc of every builder = base set + own registrations and the base map unchanged after every compile; 8 fixed sequences. " +
 			"Observables: BuildKey output against the recording context with the optimising and the plain builder, compile errors (kind, rune offset); a panic is an observable. " +
 			"distinct = distinct (claim, template); non-trivial = at least two of: brace, quote, backslash, white space other than U+0020, nesting >= 2, nesting >= 3, non-ASCII, empty quoted item, compile error.",
